@@ -165,126 +165,159 @@ func computeTables(c *Ctx, r *Report, rule string, months bool) {
 	var bad []string
 	problems := map[string]bool{}
 	n := 0
-	for _, sc := range scen {
+	// one walk per scenario serves both rules (and every property they are registered under)
+	type scenRun struct {
+		got      []monthRec
+		terms    map[int64]float64
+		outcome  string
+		fail     string
+		problems []string
+	}
+	cacheKey := fmt.Sprintf("%p", c)
+	runs, cached := computeRunsCache[cacheKey].([]scenRun)
+	if !cached {
+		for _, sc := range scen {
+			sky, year := sc.sky, sc.year
+			problems := map[string]bool{}
+			var got []monthRec
+			termsGot := map[int64]float64{}
+			var leaf leafX
+			floats := func(fr *evalFrame, args []ssa.Value) ([]float64, bool) {
+				var out []float64
+				for _, a := range args {
+					o, ok := evalWith(fr, a, leaf)
+					switch t := o.(type) {
+					case float64:
+						out = append(out, t)
+					case int64:
+						out = append(out, float64(t))
+					default:
+						return nil, false
+					}
+					if !ok {
+						return nil, false
+					}
+				}
+				return out, true
+			}
+			leaf = func(fr *evalFrame, v ssa.Value) (interface{}, bool) {
+				if rc, f, ok := getterField(c, v); ok {
+					if ofr, o := fr.origin(rc); ofr.parent == nil && o == ssa.Value(fn.Params[0]) {
+						switch f {
+						case "LunarYear.year":
+							return year, true
+						case "LunarYear.months":
+							return absPtr{"months", false}, true
+						}
+					}
+				}
+				call, ok := v.(*ssa.Call)
+				if !ok || call.Common().StaticCallee() == nil {
+					return nil, false
+				}
+				args := call.Common().Args
+				switch fname(call.Common().StaticCallee()) {
+				case "ShouXingUtil.CalcQi":
+					if a, ok := floats(fr, args); ok {
+						_, q := sky.termNear(a[0])
+						return q, true
+					}
+					return nil, false
+				case "ShouXingUtil.CalcShuo":
+					if a, ok := floats(fr, args); ok {
+						_, m := sky.moonNear(a[0])
+						return m, true
+					}
+					return nil, false
+				case "ShouXingUtil.QiAccurate2":
+					if a, ok := floats(fr, args); ok {
+						_, q := sky.termNear(a[0])
+						return q + 0.125, true
+					}
+					return nil, false
+				case "calendar.NewLunarMonth":
+					if a, ok := floats(fr, args); ok && len(a) == 5 {
+						got = append(got, monthRec{int64(a[0]), int64(a[1]), int64(a[2]), a[3], int64(a[4])})
+						return absPtr{"month", false}, true
+					}
+					problems["a month record is built from values that cannot be followed"] = true
+					return nil, false
+				}
+				return nil, false
+			}
+			ev := &evaluator{inline: inlineLibrary, leaf: leaf, counted: 4096}
+			// the term table: the slice that ends up in lunarYear.jieQiJulianDays, filled element by element — through the
+			// field or through a local that is stored into the field
+			bySlice := map[ssa.Value]map[int64]float64{}
+			var fieldSrc []ssa.Value
+			ev.onStore = func(fr *evalFrame, st *ssa.Store, val interface{}, ok bool) {
+				if _, f, isF := getterField(c, st.Addr); isF && f == "LunarYear.jieQiJulianDays" {
+					return
+				}
+				if fa, isFA := st.Addr.(*ssa.FieldAddr); isFA && fieldKeyOf(fa) == "LunarYear.jieQiJulianDays" {
+					_, src := fr.origin(st.Val)
+					fieldSrc = append(fieldSrc, src)
+					return
+				}
+				ia, isIA := st.Addr.(*ssa.IndexAddr)
+				if !isIA || !isFloatType(st.Val.Type()) {
+					return
+				}
+				var key ssa.Value
+				if _, f, isF := getterField(c, ia.X); isF && f == "LunarYear.jieQiJulianDays" {
+					key = nil // through the field
+				} else if _, isLocalArr := localArrayOf(ia.X); isLocalArr {
+					return // a local work array (estimates, new moons)
+				} else {
+					_, key = fr.origin(ia.X)
+				}
+				iv, ok2 := ev.eval(fr, ia.Index, 0)
+				i, isI := iv.(int64)
+				fv, isFl := val.(float64)
+				if !ok || !ok2 || !isI || !isFl {
+					problems["a store into a table of instants cannot be followed"] = true
+					return
+				}
+				if bySlice[key] == nil {
+					bySlice[key] = map[int64]float64{}
+				}
+				bySlice[key][i] = fv
+			}
+			ev.visit = func(fr *evalFrame, call *ssa.Call) {
+				// the month handed to the list is read where it is pushed
+				callee := call.Common().StaticCallee()
+				if callee != nil && strings.HasPrefix(callee.String(), "(*container/list.List).Push") && len(call.Common().Args) == 2 {
+					ev.eval(fr, unwrapIface(call.Common().Args[1]), 0)
+				}
+			}
+			_, outcome := ev.run(fn, nil, nil, nil, nil)
+			for k, v := range bySlice[nil] {
+				termsGot[k] = v
+			}
+			for _, src := range fieldSrc {
+				for k, v := range bySlice[src] {
+					termsGot[k] = v
+				}
+			}
+			runs = append(runs, scenRun{got, termsGot, outcome, ev.fail, sortedKeys(problems)})
+			if outcome != "return" || len(problems) > 0 {
+				break // the same trouble in every scenario
+			}
+		}
+		computeRunsCache[cacheKey] = runs
+	}
+	for i, run := range runs {
 		if len(bad) >= 4 || len(problems) > 0 {
 			break
 		}
-		sky, year := sc.sky, sc.year
-		var got []monthRec
-		termsGot := map[int64]float64{}
-		var leaf leafX
-		floats := func(fr *evalFrame, args []ssa.Value) ([]float64, bool) {
-			var out []float64
-			for _, a := range args {
-				o, ok := evalWith(fr, a, leaf)
-				switch t := o.(type) {
-				case float64:
-					out = append(out, t)
-				case int64:
-					out = append(out, float64(t))
-				default:
-					return nil, false
-				}
-				if !ok {
-					return nil, false
-				}
-			}
-			return out, true
+		sky, year := scen[i].sky, scen[i].year
+		got, termsGot, outcome := run.got, run.terms, run.outcome
+		for _, p := range run.problems {
+			problems[p] = true
 		}
-		leaf = func(fr *evalFrame, v ssa.Value) (interface{}, bool) {
-			if rc, f, ok := getterField(c, v); ok {
-				if ofr, o := fr.origin(rc); ofr.parent == nil && o == ssa.Value(fn.Params[0]) {
-					switch f {
-					case "LunarYear.year":
-						return year, true
-					case "LunarYear.months":
-						return absPtr{"months", false}, true
-					}
-				}
-			}
-			call, ok := v.(*ssa.Call)
-			if !ok || call.Common().StaticCallee() == nil {
-				return nil, false
-			}
-			args := call.Common().Args
-			switch fname(call.Common().StaticCallee()) {
-			case "ShouXingUtil.CalcQi":
-				if a, ok := floats(fr, args); ok {
-					_, q := sky.termNear(a[0])
-					return q, true
-				}
-				return nil, false
-			case "ShouXingUtil.CalcShuo":
-				if a, ok := floats(fr, args); ok {
-					_, m := sky.moonNear(a[0])
-					return m, true
-				}
-				return nil, false
-			case "ShouXingUtil.QiAccurate2":
-				if a, ok := floats(fr, args); ok {
-					_, q := sky.termNear(a[0])
-					return q + 0.125, true
-				}
-				return nil, false
-			case "calendar.NewLunarMonth":
-				if a, ok := floats(fr, args); ok && len(a) == 5 {
-					got = append(got, monthRec{int64(a[0]), int64(a[1]), int64(a[2]), a[3], int64(a[4])})
-					return absPtr{"month", false}, true
-				}
-				problems["a month record is built from values that cannot be followed"] = true
-				return nil, false
-			}
-			return nil, false
-		}
-		ev := &evaluator{inline: inlineLibrary, leaf: leaf, counted: 4096}
-		// the term table: the slice that ends up in lunarYear.jieQiJulianDays, filled element by element — through the
-		// field or through a local that is stored into the field
-		bySlice := map[ssa.Value]map[int64]float64{}
-		var fieldSrc []ssa.Value
-		ev.onStore = func(fr *evalFrame, st *ssa.Store, val interface{}, ok bool) {
-			if _, f, isF := getterField(c, st.Addr); isF && f == "LunarYear.jieQiJulianDays" {
-				return
-			}
-			if fa, isFA := st.Addr.(*ssa.FieldAddr); isFA && fieldKeyOf(fa) == "LunarYear.jieQiJulianDays" {
-				_, src := fr.origin(st.Val)
-				fieldSrc = append(fieldSrc, src)
-				return
-			}
-			ia, isIA := st.Addr.(*ssa.IndexAddr)
-			if !isIA || !isFloatType(st.Val.Type()) {
-				return
-			}
-			var key ssa.Value
-			if _, f, isF := getterField(c, ia.X); isF && f == "LunarYear.jieQiJulianDays" {
-				key = nil // through the field
-			} else if _, isLocalArr := localArrayOf(ia.X); isLocalArr {
-				return // a local work array (estimates, new moons)
-			} else {
-				_, key = fr.origin(ia.X)
-			}
-			iv, ok2 := ev.eval(fr, ia.Index, 0)
-			i, isI := iv.(int64)
-			fv, isFl := val.(float64)
-			if !ok || !ok2 || !isI || !isFl {
-				problems["a store into a table of instants cannot be followed"] = true
-				return
-			}
-			if bySlice[key] == nil {
-				bySlice[key] = map[int64]float64{}
-			}
-			bySlice[key][i] = fv
-		}
-		ev.visit = func(fr *evalFrame, call *ssa.Call) {
-			// the month handed to the list is read where it is pushed
-			callee := call.Common().StaticCallee()
-			if callee != nil && strings.HasPrefix(callee.String(), "(*container/list.List).Push") && len(call.Common().Args) == 2 {
-				ev.eval(fr, unwrapIface(call.Common().Args[1]), 0)
-			}
-		}
-		_, outcome := ev.run(fn, nil, nil, nil, nil)
 		n++
 		if outcome != "return" {
-			problems["the function could not be followed: "+outcome+" "+ev.fail] = true
+			problems["the function could not be followed: "+outcome+" "+run.fail] = true
 			continue
 		}
 		want, terms := statedMonths(sky, year, leap11, leap12)
@@ -303,14 +336,6 @@ func computeTables(c *Ctx, r *Report, rule string, months bool) {
 				break
 			}
 		}
-		for k, v := range bySlice[nil] {
-			termsGot[k] = v
-		}
-		for _, src := range fieldSrc {
-			for k, v := range bySlice[src] {
-				termsGot[k] = v
-			}
-		}
 		for i, t := range terms {
 			if g, ok := termsGot[int64(i)]; !ok || g != t {
 				bad = append(bad, fmt.Sprintf("year %d: term-table entry %d is %v (stored: %v), stated %v", year, i, g, ok, t))
@@ -327,4 +352,249 @@ func computeTables(c *Ctx, r *Report, rule string, months bool) {
 		construct = "calendar.(*LunarYear).compute fills the term table with the accurate instants of its estimates"
 	}
 	r.check(len(bad) == 0 && n == len(scen), rule, construct, c.fnPos(fn), fmt.Sprintf("%d of %d (sky, year) scenarios followed; deviations: %v", n, len(scen), headList(bad, 3)))
+}
+
+var computeRunsCache = map[string]interface{}{}
+
+// R06.6 — LunarMonth.Next on year tables the checker supplies.
+func r06_6(c *Ctx, r *Report) {
+	const rule = "R06.6"
+	r.rule(rule, "Moving n months reaches the month n places on. LunarMonth.Next(n) is followed by the evaluator (its nested loops as tables over the iteration number; lists as positions in a table) with NewLunarYear(y) answering with the stated month table of year y on a synthetic ephemeris (the tables of R06.5, which agree on the months neighbouring years share): from every month of its own year, for a common year, a leap year and the years beside them, and for n in 0, ±1, ±2, ±5, ±12, ±13, ±14, ±27, the month returned is the one n places further along the single sequence of months — same year label, same month number, same first day — and a table of the year it is labelled with or of a neighbour holds it.")
+	fn := c.Fn(r, rule, "calendar.(*LunarMonth).Next")
+	if fn == nil || len(fn.Params) != 2 {
+		return
+	}
+	sky := synthSky{11}
+	tables := map[int64][]monthRec{}
+	table := func(y int64) []monthRec {
+		if t, ok := tables[y]; ok {
+			return t
+		}
+		t, _ := statedMonths(sky, y, nil, nil)
+		tables[y] = t
+		return t
+	}
+	// a run of years whose stated tables agree on the months they share (where a leap month falls at the very
+	// start or end of a table the real calendar needs its explicit override years; such years are left out here)
+	agree := func(y int64) bool { // tables y and y+1
+		byFirst := map[float64]monthRec{}
+		for _, m := range table(y) {
+			byFirst[m.first] = m
+		}
+		for _, m := range table(y + 1) {
+			if old, ok := byFirst[m.first]; ok && (old.year != m.year || old.month != m.month || old.days != m.days) {
+				return false
+			}
+		}
+		return true
+	}
+	lo, hi := int64(0), int64(-1)
+	for y := int64(1950); y < 2100; {
+		e := y
+		for e < 2100 && agree(e) {
+			e++
+		}
+		if e-y > hi-lo {
+			lo, hi = y, e
+		}
+		y = e + 1
+	}
+	if hi-lo < 9 {
+		r.bad(rule, "a run of years whose stated tables agree", c.fnPos(fn), fmt.Sprintf("the longest run on the synthetic sky has %d years: too short to apply the rule", hi-lo+1))
+		return
+	}
+	// the single sequence of months, by first day
+	seq := map[float64]monthRec{}
+	var firsts []float64
+	for y := lo; y <= hi; y++ {
+		for _, m := range table(y) {
+			if _, ok := seq[m.first]; ok {
+				continue
+			}
+			seq[m.first] = m
+			firsts = append(firsts, m.first)
+		}
+	}
+	sort.Float64s(firsts)
+	posOf := map[float64]int{}
+	for i, f := range firsts {
+		posOf[f] = i
+	}
+	parse := func(tag, kind string) (int64, int64, bool) {
+		var y, i int64
+		if n, err := fmt.Sscanf(tag, kind+":%d:%d", &y, &i); err == nil && n == 2 {
+			return y, i, true
+		}
+		return 0, 0, false
+	}
+	var bad []string
+	problems := map[string]bool{}
+	n := 0
+	leapSeen, commonSeen := false, false
+	for y0 := lo + 3; y0 <= hi-3 && y0 < lo+13 && len(bad) < 4 && len(problems) == 0; y0++ {
+		own := 0
+		for _, m := range table(y0) {
+			if m.year == y0 {
+				own++
+			}
+		}
+		if own == 13 {
+			leapSeen = true
+		} else {
+			commonSeen = true
+		}
+		for _, start := range table(y0) {
+			if start.year != y0 {
+				continue
+			}
+			for _, steps := range []int64{0, 1, 2, 5, 12, 13, 14, 27, -1, -2, -5, -12, -13, -14, -27} {
+				var leaf leafX
+				ptr := func(fr *evalFrame, v ssa.Value) (string, bool) {
+					o, ok := evalWith(fr, v, leaf)
+					p, isP := o.(absPtr)
+					return p.tag, ok && isP && !p.isNil
+				}
+				leaf = func(fr *evalFrame, v ssa.Value) (interface{}, bool) {
+					if fr.parent == nil && v == ssa.Value(fn.Params[1]) {
+						return steps, true
+					}
+					if rc, f, ok := getterField(c, v); ok {
+						if ofr, o := fr.origin(rc); ofr.parent == nil && o == ssa.Value(fn.Params[0]) {
+							switch f {
+							case "LunarMonth.year":
+								return start.year, true
+							case "LunarMonth.month":
+								return start.month, true
+							}
+							return nil, false
+						}
+						tag, ok := ptr(fr, rc)
+						if !ok {
+							return nil, false
+						}
+						_, isCall := v.(*ssa.Call)
+						switch f {
+						case "List.len", "List.root", "Element.next", "Element.prev":
+							if !isCall {
+								return nil, false
+							}
+							// a method of container/list that happens to be a plain getter: read as the list operation below
+							goto calls
+						case "LunarYear.months":
+							if y, _, ok := parse(tag+":0", "year"); ok {
+								return absPtr{fmt.Sprintf("months:%d:0", y), false}, true
+							}
+						case "LunarMonth.year", "LunarMonth.month", "LunarMonth.index", "LunarMonth.dayCount", "LunarMonth.firstJulianDay":
+							if y, i, ok := parse(tag, "month"); ok && i >= 0 && int(i) < len(table(y)) {
+								switch f {
+								case "LunarMonth.year":
+									return table(y)[i].year, true
+								case "LunarMonth.month":
+									return table(y)[i].month, true
+								case "LunarMonth.index":
+									return table(y)[i].index, true
+								case "LunarMonth.dayCount":
+									return table(y)[i].days, true
+								}
+								return table(y)[i].first, true
+							}
+						case "Element.Value":
+							if y, i, ok := parse(tag, "elem"); ok {
+								return absPtr{fmt.Sprintf("month:%d:%d", y, i), false}, true
+							}
+						}
+						return nil, false
+					}
+				calls:
+					call, ok := v.(*ssa.Call)
+					if !ok || call.Common().StaticCallee() == nil {
+						return nil, false
+					}
+					args := call.Common().Args
+					callee := call.Common().StaticCallee()
+					switch callee.String() {
+					case "(*container/list.List).Front", "(*container/list.List).Back", "(*container/list.List).Len":
+						tag, ok := ptr(fr, args[0])
+						y, _, ok2 := parse(tag, "months")
+						if !ok || !ok2 {
+							return nil, false
+						}
+						switch callee.Name() {
+						case "Len":
+							return int64(len(table(y))), true
+						case "Front":
+							return absPtr{fmt.Sprintf("elem:%d:0", y), false}, true
+						}
+						return absPtr{fmt.Sprintf("elem:%d:%d", y, len(table(y))-1), false}, true
+					case "(*container/list.Element).Next", "(*container/list.Element).Prev":
+						tag, ok := ptr(fr, args[0])
+						y, i, ok2 := parse(tag, "elem")
+						if !ok || !ok2 {
+							return nil, false
+						}
+						if callee.Name() == "Next" {
+							i++
+						} else {
+							i--
+						}
+						if i < 0 || int(i) >= len(table(y)) {
+							return absPtr{"nil", true}, true
+						}
+						return absPtr{fmt.Sprintf("elem:%d:%d", y, i), false}, true
+					}
+					switch fname(callee) {
+					case "calendar.NewLunarYear":
+						if o, ok := evalWith(fr, args[0], leaf); ok {
+							if y, isI := o.(int64); isI && y >= lo && y <= hi {
+								return absPtr{fmt.Sprintf("year:%d", y), false}, true
+							}
+						}
+						return nil, false
+					case "calendar.NewLunarMonthFromYm":
+						yo, ok1 := evalWith(fr, args[0], leaf)
+						mo, ok2 := evalWith(fr, args[1], leaf)
+						y, isY := yo.(int64)
+						m, isM := mo.(int64)
+						if ok1 && ok2 && isY && isM {
+							for i, rec := range table(y) {
+								if rec.year == y && rec.month == m {
+									return absPtr{fmt.Sprintf("month:%d:%d", y, i), false}, true
+								}
+							}
+							return absPtr{"nil", true}, true
+						}
+						return nil, false
+					}
+					return nil, false
+				}
+				ev := &evaluator{inline: inlineLibrary, leaf: leaf, counted: 4096}
+				res, outcome := ev.run(fn, nil, nil, nil, nil)
+				n++
+				target := posOf[start.first] + int(steps)
+				if target < 0 || target >= len(firsts) {
+					continue
+				}
+				want := seq[firsts[target]]
+				if outcome != "return" || len(res) != 1 {
+					problems["the function could not be followed: "+outcome+" "+ev.fail] = true
+					continue
+				}
+				p, isP := res[0].(absPtr)
+				ty, ti, okP := parse(p.tag, "month")
+				if !isP || p.isNil || !okP {
+					bad = append(bad, fmt.Sprintf("from %d-%d by %+d: no month is returned (%v), stated %d-%d", start.year, start.month, steps, res[0], want.year, want.month))
+					continue
+				}
+				got := table(ty)[ti]
+				if got.year != want.year || got.month != want.month || got.first != want.first {
+					bad = append(bad, fmt.Sprintf("from %d-%d by %+d: %d-%d (first day %.0f), stated %d-%d (first day %.0f)", start.year, start.month, steps, got.year, got.month, got.first, want.year, want.month, want.first))
+				}
+			}
+		}
+	}
+	for p := range problems {
+		bad = append(bad, p)
+	}
+	sort.Strings(bad)
+	r.check(len(bad) == 0 && n > 1500 && leapSeen && commonSeen, rule, "calendar.(*LunarMonth).Next(n) reaches the month n places on", c.fnPos(fn), fmt.Sprintf("%d cases (start month x n) over years with 12 and with 13 months; deviations: %v", n, headList(bad, 3)))
 }
